@@ -522,7 +522,7 @@ def specs_c17(tier):
     small = [gr.NAMED[k] for k in ("P2", "P3", "K3")] + [(3, [(0, 1)])] + [(3, [(0, 1), (1, 2), (1, 1)]), (2, [(0, 1), (0, 0), (1, 1)])]    # incl. self-loops
     for n, es in small + ([gr.NAMED["S4"], gr.NAMED["P4"], gr.NAMED["C4"]] if thorough else [gr.NAMED["S4"]]):
         for fn in ("nonMarkov_directed_percolate_network", "estimate_nonMarkov_SIR_prob_size"):
-            for cont in ("dict", "defaultdict", "lazy", "list", "array"):
+            for cont in ("dict", "defaultdict", "lazy"):       # (documented as dicts read with xi[u]: dict subclasses, not lists)
                 out.append(dict(kind="xi", fn=fn, n=n, edges=es, container=cont))
             if n <= 3:
                 out.append(dict(kind="xi", fn=fn, n=n, edges=es, container="dict", homogeneous=True))
